@@ -14,8 +14,16 @@ from .monitors import Monitor
 from .ops import op
 
 
-def _states(xs):
+def _states(xs, np_ints=False):
+    if np_ints:
+        # occupation numbers as numpy integers, as when states are built from
+        # the rows of an array
+        return [lw.State([np.int64(v) for v in x]) for x in xs]
     return [lw.State(list(x)) for x in xs]
+
+
+def _plain_state(s):
+    return lw.State([int(v) for v in s])
 
 
 def gen_values(shape, seed, vtype):
@@ -31,7 +39,8 @@ def gen_values(shape, seed, vtype):
 
 @op("result_synth")
 def _result_synth(w, o):
-    ins, outs = _states(o["inputs"]), _states(o["outputs"])
+    ins = _states(o["inputs"], o.get("np_states"))
+    outs = _states(o["outputs"], o.get("np_states"))
     arr = gen_values((len(ins), len(outs)), o["seed"], o["vtype"])
     rt = o.get("rtype", "probability")
     r = w.call(SimulationResult, arr, rt, inputs=ins, outputs=outs)
@@ -42,7 +51,7 @@ def _result_synth(w, o):
 
 @op("result_sampling_synth")
 def _result_sampling_synth(w, o):
-    outs = _states(o["outputs"])
+    outs = _states(o["outputs"], o.get("np_states"))
     rng = np.random.default_rng(o["seed"])
     counts = {s: int(rng.integers(0, 100)) for s in outs}
     r = w.call(SamplingResult, counts, lw.State(list(o["input"])))
@@ -202,14 +211,20 @@ class ResultUser(Client):
             rt = "probability"
             if vt == "complex" or r.random() < 0.15:
                 rt = "probability_amplitude"
-            return {"op": "result_synth", "inputs": ins, "outputs": outs,
-                    "seed": r.randrange(1 << 30), "vtype": vt, "rtype": rt,
-                    "out": out}
+            o = {"op": "result_synth", "inputs": ins, "outputs": outs,
+                 "seed": r.randrange(1 << 30), "vtype": vt, "rtype": rt,
+                 "out": out}
+            if r.random() < 0.15:
+                o["np_states"] = True
+            return o
         if k == "samp_synth":
             nm = r.randint(1, 4)
-            return {"op": "result_sampling_synth",
-                    "outputs": self.rand_states(nm, r.randint(1, 8)),
-                    "input": [1] * nm, "seed": r.randrange(1 << 30), "out": out}
+            o = {"op": "result_sampling_synth",
+                 "outputs": self.rand_states(nm, r.randint(1, 8)),
+                 "input": [1] * nm, "seed": r.randrange(1 << 30), "out": out}
+            if r.random() < 0.15:
+                o["np_states"] = True
+            return o
         small = self.any_circuits(
             lambda cid, c: c.n_modes <= 5 and c.input_modes >= 1
             and sum(c.heralds["input"].values()) <= 1)
@@ -266,7 +281,13 @@ class ResultMonitor(Monitor):
                 return [self.v({"kind": "sampling_counts_differ"},
                                "SamplingResult does not return the counts it was built from")]
             for k, v in src.items():
-                if r[lw.State(list(k))] != v:
+                try:
+                    got = r[lw.State([int(x) for x in k])]
+                except KeyError:
+                    return [self.v({"kind": "sampling_getitem_keyerror"},
+                                   f"an equal State built from plain ints is "
+                                   f"not found: {k}")]
+                if got != v:
                     return [self.v({"kind": "sampling_getitem"}, str(k))]
             outs = [tuple(x) for x in r.outputs]
             if sorted(outs) != sorted(src.keys()) or len(outs) != len(src):
@@ -290,8 +311,13 @@ class ResultMonitor(Monitor):
                            "the states it was built with")]
         for a, i in enumerate(ins):
             for b, o in enumerate(outs):
-                v1 = r[i, o]
-                v2 = r[i][o]
+                try:
+                    # looked up with *equal* states built from plain ints
+                    v1 = r[_plain_state(i), _plain_state(o)]
+                    v2 = r[_plain_state(i)][_plain_state(o)]
+                except KeyError:
+                    return [self.v({"kind": "lookup_keyerror"},
+                                   f"[{i},{o}] not found through an equal State")]
                 v3 = arr[a, b]
                 if not (v1 == v2 == v3) and not (np.isnan(v1) and np.isnan(v3)):
                     return [self.v({"kind": "index_inconsistent"},
